@@ -198,9 +198,9 @@ Proof.
     intros c ev a c' ev' E.
     assert (E' : bind (LET c <- get IN
       modify (fun c0 => (c0 <| c_lastMsgStateChange := None |> <| c_msgState := c_finished |> <| c_smp := smp_wiped |> <| c_ake := None |> <| c_keys := keyctx_empty |> <| c_version := 0 |>)) ;;;
-      (if c_msgState c =? c_encrypted then event (evSec c_GoneInsecure) else ret tt)) (fun _ => processTLVs rnd r x acc) c ev = (a, c', ev')).
+      (if c_msgState c =? c_encrypted then event (evSec c_GoneInsecure) else ret tt)) (fun _ => ret (inl acc)) c ev = (a, c', ev')).
     { rewrite <- E. reflexivity. }
-    revert E'. apply lc_bind; [apply lc_disconnect_block | intros _; apply IH].
+    revert E'. apply lc_bind; [apply lc_disconnect_block | intros _; apply fr_lc, fr_ret].
   - lc_tac; apply IH.
   - lc_tac; apply IH.
   - apply IH.
